@@ -4,6 +4,18 @@ NOT_APPLICABLE = {}
 BASE_NOTE = ("Trusted: Lean 4.33 kernel (axioms at most propext, Classical.choice, Quot.sound; audited per theorem on every run), "
              "the go/ast fact extractor and its expectations, the seeded correspondence harness (coverage reported in evidence). ")
 TEXT = {
+    "C05": dict(
+        text="Theorems sent_is_exact_slice (what has been sent is exactly output[start..pos], for every interleaving of the unit's "
+             "writes, status rewrites and the reader's reads/checks and every start offset), never_ends_early, ends_once_finished "
+             "(fair reader), cancelled_never_ends (the repaired defect, as a theorem about the old completion test); for remote units "
+             "mirror_prefix and mirror_completes (local copy is a prefix of the remote output across arbitrarily cut requests, and "
+             "level with it after an uncut one). Tie: regenerated facts (completion test, IsComplete, per-read buffer, seek/read/"
+             "send step, remote offset measured inside the loop, append) + differential runs of the real `work results` ControlFunc/"
+             "GetResults against a scripted producer (chunk sizes around the 64 KiB buffer, start offsets 0..size and beyond, asked "
+             "before/while/after the unit runs, slow and fast consumers, final states succeeded/failed/cancelled), every received byte "
+             "checked against its position.",
+        note=BASE_NOTE + "The remote mirror is proved on the model and tied by facts only (no run across real link cuts); polling "
+             "intervals are real time: 'ends' is observed within 4 s."),
     "C08": dict(
         text="Theorems line_no_crash, session_no_crash, invalid_gets_error, garbage_then_valid, sessions_isolated, reader_lines over "
              "a model of RunControlSession (byte-wise reader, JSON/plain dispatch, command table) and of InitFromString/InitFromJSON of "
